@@ -460,9 +460,52 @@ func c20History(g *gen) *history {
 		hi.Origin[p] = p
 	}
 	nc := 1 + r.Intn(3)
+	// scripted stratum (one history in six, when there are two files): a whole file of providers is deleted, a later commit
+	// renames another file onto its path, a later commit edits the renamed file -- two change records end at the same path
+	var script []string
+	if len(state) >= 2 && r.Intn(6) == 0 {
+		ps := sortedKeys(state)
+		r.Shuffle(len(ps), func(i, j int) { ps[i], ps[j] = ps[j], ps[i] })
+		script = []string{"delete:" + ps[0], "rename:" + ps[1] + ":" + ps[0], "edit:" + ps[0]}
+		if nc < 3 {
+			nc = 3
+		}
+		strata["rename-onto-deleted-path-then-edit"] = true
+	}
 	for ci := 0; ci < nc; ci++ {
 		var ops []hOp
 		nops := 1 + r.Intn(3)
+		if ci < len(script) {
+			nops = 0
+			f := strings.Split(script[ci], ":")
+			switch f[0] {
+			case "delete":
+				delete(state, f[1])
+				delete(hi.Origin, f[1])
+				ops = append(ops, hOp{Op: "delete-file", Path: f[1]})
+			case "rename":
+				if fl, ok := state[f[1]]; ok {
+					delete(state, f[1])
+					state[f[2]] = fl
+					o := hi.Origin[f[1]]
+					delete(hi.Origin, f[1])
+					hi.Origin[f[2]] = o
+					hi.RenEdits = append(hi.RenEdits, [2]string{f[1], f[2]})
+					ops = append(ops, hOp{Op: "rename-file", Path: f[1], To: f[2]})
+				}
+			case "edit":
+				if fl, ok := state[f[1]]; ok && len(fl.Rules) > 0 {
+					fl = fl.clone()
+					i := r.Intn(len(fl.Rules))
+					fl.Rules[i].Blank = (fl.Rules[i].Blank + 1) % 3
+					if r.Intn(2) == 0 {
+						fl.Rules = append(fl.Rules, c20Rule(g, false))
+					}
+					state[f[1]] = fl
+					ops = append(ops, hOp{Op: "edit-file", Path: f[1]})
+				}
+			}
+		}
 		for k := 0; k < nops; k++ {
 			paths := sortedKeys(state)
 			if len(paths) == 0 {
